@@ -171,14 +171,39 @@ def hand_step(solver, nsteps):
     rs = RunningState(sizes, 1)
     states = [dict(zip(names, vals))]
     dts = []
+    # count genuine refusals of the step solver (observation only: the call is passed through)
+    refusals = {"n": 0, "per_step": []}
+    orig = type(solver).solve_for_psi_squared
+
+    def counting(**kw):
+        out = orig(**kw)
+        if out is None:
+            refusals["n"] += 1
+        return out
+
+    solver.solve_for_psi_squared = counting
+    solver.env_refusals = refusals
     time = 0.0
     dt = opts.dt_init
     for i in range(nsteps):
         st = {"step": i, "time": time, "dt": dt}
         rs.clear()
+        before = refusals["n"]
         res = solver.update(st, rs, dt, **dict(zip(names, vals)))
+        refusals["per_step"].append(refusals["n"] - before)
         dt, *vals = res
         dts.append(float(dt))
         time += dt
         states.append(dict(zip(names, vals)))
     return states, dts
+
+
+def read_raw_mesh(path):
+    """RawMesh from an output file (top-level mesh of an unfinished run, or the device mesh of a finished one)."""
+    import h5py
+
+    from .ref.physics import RawMesh
+
+    with h5py.File(path, "r") as f:
+        g = f["mesh"] if "mesh" in f else f["solution/device/mesh"]
+        return RawMesh.from_h5(g)
